@@ -406,20 +406,34 @@ def t_reserved( ctx ):
                     and isinstance( n.func.value, ast.Call ) and call_name( n.func.value ) == 'super' ]
     if not leaf_stores:
         raise AnalysisError( 'dotdict_base.__setitem__: leaf store super().__setitem__ not found' )
+    # every statement that INSERTS a caller-named entry into the underlying mapping - the leaf store super().__setitem__( name, ... ) and the
+    # creation of an interior level super().setdefault( name, dotdict() ) - is dominated by the refusing guard ( CFG: every path from the
+    # entry passes the guard's test; the guard's body raises )
+    from .cfg import CFG
+    cfg = CFG( si )
+    gnodes = [ n for n in cfg.nodes if n.kind == 'test' and n.stmt is guard ]
+    level_stores = [ n for n in ast.walk( si ) if is_call_to( n, 'setdefault' ) and isinstance( n.func, ast.Attribute )
+                     and isinstance( n.func.value, ast.Call ) and call_name( n.func.value ) == 'super' ]
+    KEYNAME = None
+    for c_ in ast.walk( guard.test ):
+        if isinstance( c_, ast.Compare ) and isinstance( c_.ops[0], ast.In ) and '__invalid_keys__' in attrs_in( c_.comparators[0] ) and isinstance( c_.left, ast.Name ):
+            KEYNAME = c_.left.id
     def guarded( call ):
         st = stmt_of( src, call )
-        if any( st is b or st in ast.walk( b ) for b in guard.orelse ):
-            return True
-        blk = src.parent.get( guard )
-        for field in ( 'body', 'orelse', 'finalbody' ):
-            seq = getattr( blk, field, None )
-            if isinstance( seq, list ) and guard in seq and st in seq and seq.index( st ) > seq.index( guard ):
-                return True
-        return False
-    if not raises or not all( guarded( c ) for c in leaf_stores ) or not isinstance( guard.test, ast.BoolOp ) \
+        nodes = [ n for n in cfg.nodes if n.kind == 'stmt' and n.stmt is st ]
+        return bool( nodes ) and bool( gnodes ) and call.args and dotted( call.args[0] ) == KEYNAME and all( cfg.must_pass( cfg.entry, n, gnodes, correlated=False ) for n in nodes )
+    if not raises or KEYNAME is None or not all( guarded( c ) for c in leaf_stores ) or not isinstance( guard.test, ast.BoolOp ) \
        or not isinstance( guard.test.op, ast.Or ) or 'inself.__invalid_keys__' not in gtxt:
         res.bad( src, guard, guard.test, 'the leaf store must be refused (raise) when the key is in __invalid_keys__' )
         return res
+    if not level_stores:
+        raise AnalysisError( 'dotdict_base.__setitem__: creation of interior levels ( super().setdefault( name, dotdict() )) not found' )
+    for c in level_stores:
+        if guarded( c ):
+            res.ok( src, c, 'creation of an interior level is dominated by the reserved-name refusal: ' + norm_text( c ))
+        else:
+            res.bad( src, c, '__setitem__ creates the interior level %s without testing the name against __invalid_keys__' % norm_text( c ),
+                     "a reserved method name is accepted as a LEVEL: d['keys.a'] = 1 succeeds, iteration lists 'keys.a' and 'keys' in d is True while d.keys is still the method" )
     dunder_refused = ".startswith('__')" in gtxt
     res.ok( src, guard, 'leaf store guarded: ' + norm_text( guard.test ))
     # names found by ordinary lookup on an instance
